@@ -1163,6 +1163,11 @@ class Network:
 
         # Complete expected response futures
         for expected_response in self._expected_response_futures:
+            if expected_response.done():
+                # Cancelled / timed out in this loop iteration, its removal
+                # callback has not run yet
+                continue
+
             if expected_response.matches(connection, message):
                 expected_response.set_result((connection, message, ))
 
